@@ -201,7 +201,9 @@ def subsets_nested_text_to_flat_json(lines, idxline):
     """
     data_all_subsets = []
     while True:
-        line = lines[idxline].strip()
+        # Leading dots are part of the indentation of a delayed replication
+        # factor and of the attributes attached to it
+        line = lines[idxline].strip().lstrip('. ')
         if line.startswith(TEXT_SECTION_HEADER):
             break
         if line.startswith(TEXT_SUBSET_HEADER):
